@@ -53,7 +53,7 @@ type certManager struct {
 	refCount  sync.WaitGroup
 
 	mx            sync.RWMutex
-	lastConfig    *certConfig // initially nil
+	lastConfig    *certConfig // the previous bucket's config (rebuilt on start)
 	currentConfig *certConfig
 	nextConfig    *certConfig // nil until we have passed half the certValidity of the current config
 	addrComp      ma.Multiaddr
@@ -101,6 +101,16 @@ func (m *certManager) init(hostKey ic.PrivKey) error {
 	// We want the certificate have been valid for at least one clockSkewAllowance
 	start = start.Add(-clockSkewAllowance)
 	startTime := getCurrentBucketStartTime(start, offset)
+	// Certificates are a deterministic function of the host key and the bucket,
+	// so we can rebuild the previous bucket's certificate after a restart. Its
+	// hash has to stay in the list we confirm to dialers: an address learned
+	// during the previous period still carries it, and the dialer requires
+	// every certhash of the dialed address to be confirmed.
+	prevStartTime := startTime.Add(-validityMinusTwoSkew)
+	m.currentConfig, err = newCertConfig(hostKey, prevStartTime, prevStartTime.Add(certValidity))
+	if err != nil {
+		return err
+	}
 	m.nextConfig, err = newCertConfig(hostKey, startTime, startTime.Add(certValidity))
 	if err != nil {
 		return err
